@@ -344,6 +344,11 @@ pub fn record(args: &[String]) {
 			g.force_drop_at = Some(60);
 		}
 		g.long_regimes = std::env::var("YV_LONG_REGIMES").is_ok();
+		// every fourth program runs on a tick grid (about 0.4 % of the price): double tops, equal lows, repeated closes
+		if k % 4 == 1 && name != "TrendStrengthIndex" && witness.is_none() {
+			let p0 = g.candle().close as f64;
+			g.tick_grid = Some(2f64.powi((p0 * 0.004).log2().floor() as i32));
+		}
 		if std::env::var("YV_RANGE_REGIMES").is_ok() {
 			g.one_sided = true;
 			g.droughts = !g.no_zero_volume;
